@@ -211,11 +211,20 @@ def check(pid, tier, seed):
             if data_fail:
                 raise Infra("generated data does not elaborate: %s\n%s" % (data_fail, log[-1500:]))
             thm_fail = [m for m in failed if m.startswith("Barril.Gen.Thm")]
-            if model_fail and not thm_fail:
-                raise Infra("hand-written Lean no longer builds: %s\n%s" % (model_fail, log[-3000:]))
+            # theorem and lemma modules can stop checking because of the regenerated tables they are stated over
+            # (they build on the unchanged tree: setup and every earlier run); model and driver sources cannot
+            stated_fail = [m for m in model_fail if m.startswith(("Barril.Props.", "Barril.Proofs."))]
+            other_fail = [m for m in model_fail if m not in stated_fail]
+            if other_fail and not thm_fail:
+                raise Infra("hand-written Lean no longer builds: %s\n%s" % (other_fail, log[-3000:]))
             for m in thm_fail:
                 breaks.append(("theorem", "table theorem module %s no longer checks (decide +kernel is false on "
                                           "the regenerated rows)" % m))
+            if not thm_fail:
+                for m in stated_fail:
+                    err = re.findall(r"error: (%s[^\n]*)" % re.escape(m.replace(".", "/")), log)
+                    breaks.append(("theorem", "module %s no longer checks against the regenerated tables: %s" % (
+                        m, "; ".join(err[:3])[:300])))
             # the drivers do not depend on theorem modules: build them on their own
             ok2, failed2, log2, _ = lake_build(list(getattr(prop, "DRIVERS", [])))
             if not ok2:
